@@ -314,3 +314,23 @@ def neighbours(case, rng):
     for _ in range(6):
         out.append(spiral_case(rng) if case.get("stream", "").startswith("spiral") else ranked_case(rng))
     return out
+
+
+def _late_start(x):
+    """does the JSON value mention a month/year period starting after the 28th (whose end is clipped)?"""
+    if isinstance(x, list):
+        if len(x) == 3 and isinstance(x[0], str) and x[0] in ("month", "year") and isinstance(x[1], list) \
+                and len(x[1]) == 3 and all(isinstance(t, int) for t in x[1]) and x[1][2] > 28:
+            return True
+        return any(_late_start(y) for y in x)
+    if isinstance(x, dict):
+        return any(_late_start(y) for y in x.values())
+    return False
+
+
+def known(case, obs, msg):
+    # F31 (open): the purge deletes with Period.contains; a mark on a month period starting on
+    # day 29-31 also covers other stored periods of that variable whose (clipped) end is the same
+    if msg.startswith("retained:") and _late_start(case):
+        return "purge-contains-clipped-period"
+    return None
